@@ -21,7 +21,7 @@ DEFS = [
      "year is parsed with parse::<i32>() from the unsigned digit group `year` of the date pattern (the sign is a separate group), so year >= 0 and -year cannot be i32::MIN",
      [r"variant:Some"]),
     (r"dt_duration::FeelDaysAndTimeDuration as core::convert::TryFrom<&str>>::try_from$", r"assert\|(Overflow:Add|Overflow:Mul|OverflowNeg)",
-     "nanoseconds accumulates at most four terms (u64 value as i128) * constant <= 2^64 * 8.64e13 plus a saturating f64->i128 fraction: |sum| < 2^112, far inside i128; negation of such a value cannot overflow",
+     "nanoseconds accumulates at most four terms (u64 value as i128) * constant <= 2^64 * 8.64e13 plus a fraction of a second in nanoseconds (fraction_to_nanos reads at most nine digits: < 10^9): |sum| < 2^112, far inside i128; negation of such a value cannot overflow",
      []),
     (r"dt_duration::FeelDaysAndTimeDuration as core::ops::arith::(Add|Sub)>::(add|sub)$", r"assert\|Overflow:(Add|Sub)",
      "operands are durations built from literals (|value| < 2^112, see try_from) or from differences of date-times inside chrono's range (< 2^93 ns); reaching i128's limit needs more than 10^7 chained additions of maximal literals, i.e. an expression of that many terms",
